@@ -96,3 +96,68 @@ func Explore(bound int, body func(*C), visit func(*C) bool) int64 {
 	rec(nil)
 	return n
 }
+
+// ExploreSharded is Explore for bodies that ARE the expensive execution (the choice points are
+// discovered by running the real code, so generation cannot be separated from execution): the
+// root execution and each subtree below a first-level alternative are owned by exactly one
+// worker, decided by calling mine() once per root and once per first-level alternative, in the
+// same order in every worker.
+func ExploreSharded(bound int, mine func() bool, body func(*C), visit func(*C) bool) int64 {
+	var n int64
+	stop := false
+	var rec func(prefix []int)
+	rec = func(prefix []int) {
+		if stop {
+			return
+		}
+		c := Run(prefix, body)
+		n++
+		if !visit(c) {
+			stop = true
+			return
+		}
+		dev := Deviations(c.Trace[:len(prefix)])
+		tr, ns := c.Trace, c.Ns
+		for i := len(prefix); i < len(tr); i++ {
+			if bound >= 0 && dev+1 > bound {
+				break
+			}
+			for alt := 1; alt < ns[i]; alt++ {
+				np := make([]int, i+1)
+				copy(np, tr[:i])
+				np[i] = alt
+				rec(np)
+				if stop {
+					return
+				}
+			}
+		}
+	}
+	// root
+	rootMine := mine()
+	c := Run(nil, body)
+	if rootMine {
+		n++
+		if !visit(c) {
+			return n
+		}
+	}
+	if bound == 0 {
+		return n
+	}
+	for i := 0; i < len(c.Trace); i++ {
+		for alt := 1; alt < c.Ns[i]; alt++ {
+			if !mine() {
+				continue
+			}
+			np := make([]int, i+1)
+			copy(np, c.Trace[:i])
+			np[i] = alt
+			rec(np)
+			if stop {
+				return n
+			}
+		}
+	}
+	return n
+}
